@@ -215,7 +215,7 @@ pub fn run(ctx: &Ctx) -> i32 {
     let is14 = ctx.prop == "C14";
     let mut cases = fam_for(tier, &ctx.prop);
     cases.extend(dl_grid_cases().into_iter().filter(|c| c.g.loop_number(c.g.full()) <= 3));
-    let roles_all = Roles { u: true, xi: true, p: true, ab: true, xi_moderate: true };
+    let roles_all = Roles { u: true, xi: true, p: true, ab: true, xi_moderate: true, xi_ladder: false };
     let mut acc = par_for(cases.len(), |i, acc| {
         let case = match Case::new(&cases[i]) {
             Some(c) => c,
